@@ -64,7 +64,7 @@ func (f *FieldUpdater) Merge(dst, src proto.Message) {
 
 	var writableMask fmutils.NestedMask
 	if f.writableFields != nil {
-		writableMask = fmutils.NestedMaskFromPaths(f.writableFields.Paths)
+		writableMask = fmutils.NestedMaskFromPaths(normalizedPaths(f.writableFields.Paths))
 	}
 
 	// only allow writing writable fields by resetting non-writable fields in src
@@ -85,7 +85,7 @@ func (f *FieldUpdater) Merge(dst, src proto.Message) {
 		return
 	}
 
-	nestedMask := fmutils.NestedMaskFromPaths(mask.GetPaths())
+	nestedMask := fmutils.NestedMaskFromPaths(normalizedPaths(mask.GetPaths()))
 	nestedMask.Filter(src)
 	proto.Merge(dst, src)
 
@@ -97,6 +97,14 @@ func (f *FieldUpdater) Merge(dst, src proto.Message) {
 	}
 
 	return
+}
+
+// normalizedPaths returns paths without those already covered by a parent path in paths.
+// fmutils.NestedMask would otherwise treat {"a", "a.b"} as if it were {"a.b"}.
+func normalizedPaths(paths []string) []string {
+	m := &fieldmaskpb.FieldMask{Paths: append([]string(nil), paths...)}
+	m.Normalize()
+	return m.Paths
 }
 
 // pathCovered returns true if path, and so every field below it, is named by one of the writable paths.
